@@ -461,7 +461,7 @@ class StretchyTreeMatcher:
         # TODO: add functionality to add function references to func_table?
         meta_matched = self.metas_match(ins_node, std_node, check_meta)
         if match[_VAR] and meta_matched:  # variable
-            if type(std_node.astNode).__name__ == "Name" or id_val in ["attr", "arg"]:
+            if type(std_node.astNode).__name__ == type(ins_node.astNode).__name__:
                 if id_val in ["attr", "arg"]:
                     std_node.astNode._id = std_node.astNode.__getattribute__(id_val)
                 if std_node.field == "func" and ins_node.field != _NONE_FIELD:
